@@ -532,6 +532,23 @@ pub fn gen_case(r: &mut Rng) -> Case {
             fee: Some(Decimal::new(r.range(1, 60), 2)),
         });
     }
+    // an order filled in two equal lots: two manual trades with the same figures are two trades
+    if r.chance(10) {
+        let td = base + Duration::days(r.range(-60, 120));
+        let t = GTrade {
+            sec: secs[0].to_string(),
+            trade: td,
+            settle: td + Duration::days(2),
+            sell: !r.chance(25),
+            price: gen_price(r, 150),
+            shares: 1 + r.below(40) as u32,
+            commission: Some(Decimal::new(r.range(0, 999), 2)),
+            fee: Some(Decimal::new(r.range(1, 60), 2)),
+        };
+        trades.push(t.clone());
+        trades.push(t);
+        scen.push("twinlots".into());
+    }
     scen.push(format!("k={}", kinds.join("+")));
 
     // ---- trade confirmation files
